@@ -156,6 +156,54 @@ func genDKGAuth() {
 		}
 	}
 	l.pf("/-- %s: validateEpoch — its statements in order -/\ndef validateEpochChain : List String := %s\n", dir, leanStrList(chain))
+
+	// ---- does proposal validation pin the length of every participant signature? (validateForAllDKGs or a function it calls
+	// compares len(x.GetSignature()) / len(x.Signature) inside a loop; the loop's range expression is recorded)
+	vf := findFunc(dir, "", "validateForAllDKGs")
+	cands := []*ast.FuncDecl{vf}
+	ast.Inspect(vf.Body, func(n ast.Node) bool {
+		if c, ok := n.(*ast.CallExpr); ok {
+			if id, ok := c.Fun.(*ast.Ident); ok {
+				for _, f := range load(dir) {
+					for _, d := range f.Decls {
+						if fd, ok := d.(*ast.FuncDecl); ok && fd.Recv == nil && fd.Name.Name == id.Name && fd.Body != nil {
+							cands = append(cands, fd)
+						}
+					}
+				}
+			}
+		}
+		return true
+	})
+	lenChecked := false
+	over := ""
+	for _, fd := range cands {
+		ast.Inspect(fd.Body, func(n ast.Node) bool {
+			rs, ok := n.(*ast.RangeStmt)
+			if !ok {
+				return true
+			}
+			ast.Inspect(rs.Body, func(m ast.Node) bool {
+				be, ok := m.(*ast.BinaryExpr)
+				if !ok || (be.Op != token.NEQ && be.Op != token.EQL && be.Op != token.LSS && be.Op != token.GTR) {
+					return true
+				}
+				for _, side := range []ast.Expr{be.X, be.Y} {
+					if c, ok := side.(*ast.CallExpr); ok && exprString(c.Fun) == "len" && len(c.Args) == 1 {
+						a := exprString(c.Args[0])
+						if strings.HasSuffix(a, ".GetSignature()") || strings.HasSuffix(a, ".Signature") {
+							lenChecked = true
+							over = exprString(rs.X)
+						}
+					}
+				}
+				return true
+			})
+			return true
+		})
+	}
+	l.pf("/-- %s: proposal validation (validateForAllDKGs and what it calls) compares the length of participant signatures -/\ndef validatesSignatureLengths : Bool := %v\n", dir, lenChecked)
+	l.pf("/-- … for the participants of this expression -/\ndef signatureLengthsOver : String := %s\n", leanStr(over))
 	l.pf("end Gen.DKGAuth\n")
 }
 
